@@ -512,3 +512,13 @@ Proof.
       * apply IH. exact Hinv.
       * exact Hinv.
 Qed.
+
+(* the invariant of the bookkeeping is satisfiable by the validator's initial state
+   (setGas caps GasLeft at MaxGasAmount = 300000; storage gas already charged) *)
+Example gs_inv_example : gs_inv 300000 {| g_left := 299000; g_used := 1000; g_storage := 1000 |}.
+Proof. unfold gs_inv. cbn. lia. Qed.
+
+Example update_usage_example :
+  update_usage {| g_left := 299000; g_used := 1000; g_storage := 1000 |} 298000 =
+  UOk {| g_left := 298000; g_used := 2000; g_storage := 1000 |}.
+Proof. vm_compute. reflexivity. Qed.
